@@ -6,6 +6,27 @@ type Row []any
 type Column struct {
 	Name     string
 	Nullable bool
+	// Generated / OnUpdate are used by the C19-G* fixtures (testdata/c19/build, gexec).
+	Generated *ColumnDefaultValue
+	OnUpdate  *ColumnDefaultValue
+}
+
+// ColumnDefaultValue is an expression attached to a column definition.
+type ColumnDefaultValue struct{ Expr Expression }
+
+func (d *ColumnDefaultValue) Eval(r Row) (any, error) { return d.Expr.Eval(r) }
+
+// Equals compares two rows under a schema.
+func (r Row) Equals(ctx *Context, o Row, s Schema) (bool, error) {
+	if len(r) != len(o) {
+		return false, nil
+	}
+	for i := range r {
+		if r[i] != o[i] {
+			return false, nil
+		}
+	}
+	return true, nil
 }
 
 type Schema []*Column
